@@ -106,6 +106,8 @@ class FieldArrayModel(FieldCompositeModel):
         self.product_expr_btor = None
         
         self.trim_to_size()
+        # The call is over: forget the length recorded for it
+        self._call_len = None
         
     def abort_randomize(self):
         """Called when a call ends with an exception"""
@@ -115,6 +117,7 @@ class FieldArrayModel(FieldCompositeModel):
             if call_len < len(self.field_l):
                 del self.field_l[call_len:]
                 self._set_size(len(self.field_l))
+        self._call_len = None
         self.sum_expr_btor = None
         self.product_expr_btor = None
         
